@@ -67,13 +67,13 @@ def run(ctx):
                'rows with infinite chi^2: ranking and identity only (observed: remove_resolved never excludes the largest trial aperture, so it yields excluded (model, distance) pairs but no infinite rows; infinities inside chi^2 are mapped to 1e30)', 'remove_resolved only with use_memmap=False (memmap path skips the exclusion; outside every quantifier)',
                'tie order is free')
     ctx.require_events('Fitter.fit:post', 'rows_checked', 'model_fluxes_checked', 'earlier-result-rechecked')
-    ctx.require_regimes('exact_ties', 'rows_1e30', 'rows_inf', 'rows_nan', 'resolved_excluded', 'single_model', 'models>=200', 'mode:2d', 'mode:3d', 'style:v1', 'style:v2')
+    ctx.require_regimes('exact_ties', 'rows_1e30', 'rows_non-finite', 'single_model', 'models>=200', 'mode:2d', 'mode:3d', 'style:v1', 'style:v2', 'unit:flux-not-mJy:3d')
     n_pkg = 16 if ctx.quick else 240
     n_src = 20 if ctx.quick else 40
     for ip in range(n_pkg):
         d = ctx.newdir('p')
         mode = '2d' if ip % 2 == 0 else '3d'
-        style = str(rng.choice(['v1', 'v2']))
+        style = ['v1', 'v1', 'v2', 'v2'][ip % 4] if ip < 8 else str(rng.choice(['v1', 'v2']))
         n_models = int(rng.choice([1, 2, 6, 15, 40, 200], p=[0.1, 0.15, 0.3, 0.2, 0.15, 0.1]))
         if ip == 1:
             n_models = 200
@@ -115,8 +115,11 @@ def run(ctx):
         order = list(rng.permutation(n_models)) if style == 'v1' else list(range(n_models))
         step = float(rng.choice([0.05, 0.1, 0.2]))
         if style == 'v1':
+            funit = ['mJy', 'Jy', 'uJy'][(ip // 2) % 3]          # the unit the convolved files are tabulated in
+            if funit != 'mJy' and mode == '3d':
+                ctx.regime('unit:flux-not-mJy:3d')
             gen.write_grid_v1(d, names, bn, wav, conv, apertures=aps, aperture_dependent=(mode == '3d'),
-                              logd_step=step, table_order=order)
+                              logd_step=step, table_order=order, flux_unit=funit)
         else:
             gen.write_grid_v2(d, names, bn, wav, conv, apertures=aps, aperture_dependent=(mode == '3d'), logd_step=step)
         rownames = [names[i] for i in order]
@@ -225,8 +228,10 @@ def run(ctx):
                     ctx.regime('rows_1e30')
                 if np.any(np.isinf(chi)) and np.any(np.isfinite(chi)):
                     ctx.regime('rows_inf')
+                    ctx.regime('rows_non-finite')
                 if np.any(np.isnan(chi)) and np.any(np.isfinite(chi)):
                     ctx.regime('rows_nan')
+                    ctx.regime('rows_non-finite')
         CUR.update(phot=None)
         ctx.rmdir(d)
 
